@@ -34,6 +34,10 @@ func (c01) Gen(r *Rng, tier string, emit func(string, Tok)) {
 			period, ops := muxReAddAfterMany(r, tier, n+r.Intn(3))
 			emit("add-again-after-many-removals", muxCaseTok(period, c01NoPackets(ops)))
 		}
+		for k := 0; k < 6; k++ {
+			period, ops := muxSameShapeHeaders(r, tier)
+			emit("same-shape-headers", muxCaseTok(period, ops))
+		}
 	}
 	// payload lengths around every k*184 +/- header / adaptation field boundary, with and without a first-packet
 	// adaptation field, video (unbounded) and audio (bounded) stream ids
